@@ -25,4 +25,50 @@ def preFee (bps maxFee post : Int) : Option Int :=
     let raw := (post * 10000 + (10000 - bps) - 1) / (10000 - bps)
     if raw - post ≥ maxFee then chkU64 (post + maxFee) else chkU64 raw
 
+/-! ### mint level: which fee applies in which epoch -/
+
+/-- the `TransferFeeConfig` extension of a Token-2022 mint: the fee in force and a scheduled one with its activation epoch -/
+structure FeeCfg where
+  olderBps : Int
+  olderMax : Int
+  newerEpoch : Int
+  newerBps : Int
+  newerMax : Int
+  deriving Repr, DecidableEq
+
+/-- a mint as the three helpers of utils/general.rs see it: classic SPL (owner = Tokenkeg), Token-2022 without the
+    extension, Token-2022 with it -/
+inductive Mint
+  | spl
+  | t22
+  | t22fee (c : FeeCfg)
+  deriving Repr, DecidableEq
+
+/-- `TransferFeeConfig::get_epoch_fee`: the newer fee applies FROM its activation epoch on (inclusive) — this is the token
+    program's own rule, i.e. the fee that is really withheld from a transfer in that epoch -/
+def epochFee (c : FeeCfg) (epoch : Int) : Int × Int :=
+  if epoch ≥ c.newerEpoch then (c.newerBps, c.newerMax) else (c.olderBps, c.olderMax)
+
+/-- what the token program withholds from a transfer of `amount` in `epoch` (`calculate_epoch_fee`) -/
+def mintFee (m : Mint) (epoch amount : Int) : Option Int :=
+  match m with
+  | .spl | .t22 => some 0
+  | .t22fee c => fee (epochFee c epoch).1 (epochFee c epoch).2 amount
+
+/-- `calculate_pre_fee_spl_deposit_amount(mint, post_fee_amount, epoch)`; `none` = the `.unwrap()` panics -/
+def mintPre (m : Mint) (epoch post : Int) : Option Int :=
+  match m with
+  | .spl | .t22 => some post
+  | .t22fee c => preFee (epochFee c epoch).1 (epochFee c epoch).2 post
+
+/-- `calculate_post_fee_spl_deposit_amount(mint, input_amount, epoch)` -/
+def mintPost (m : Mint) (epoch input : Int) : Option Int :=
+  (mintFee m epoch input).bind fun f => if f ≤ input then some (input - f) else none
+
+/-- `nonzero_fee(mint, epoch)` -/
+def mintNonzero (m : Mint) (epoch : Int) : Bool :=
+  match m with
+  | .spl | .t22 => false
+  | .t22fee c => (epochFee c epoch).1 != 0
+
 end Mfi.Token
